@@ -19,8 +19,32 @@ def parseEvent (tok : String) : Option EvEvent :=
   | ["S", v] => v.toNat?.map .setBest
   | _ => none
 
+def parsePrev (tok : String) : Option (Option Trial) :=
+  if tok == "-" then some none else
+  match tok.splitOn ":" with
+  | ["P", n, f, est, raw] =>
+    match n.toNat?, f.toNat?, est.toNat?, raw.toNat? with
+    | some n, some f, some e, some r => some (some ⟨n, f, e, 0, r⟩)
+    | _, _, _, _ => none
+  | _ => none
+
 def handleEval (args : List String) : Option String :=
   match args with
+  | ["eval_handoff", b0, toks, prev] => some <|
+    match parseBound b0, parsePrev prev with
+    | some b0, some prev =>
+      let evs := if toks == "-" then some [] else (toks.splitOn ";").mapM parseEvent
+      match evs with
+      | none => "bad-args"
+      | some evs =>
+        match replay b0 evs with
+        | .error e => "err " ++ e
+        | .ok (pub, _) =>
+          let w := match handoff prev (minByKey pub) with
+            | some t => s!"{t.nth}:{t.filter}:{t.est}"
+            | none => "none"
+          s!"ok result={w} pub={pub.length}"
+    | _, _ => "bad-args"
   | ["eval_history", b0, toks] => some <|
     match parseBound b0 with
     | none => "bad-args"
